@@ -19,6 +19,7 @@ RULE = (
     "and the record is identical for every subset. Non-trivial = tree with a repeated, batched or failing sub-call and a subset that is neither empty nor full; "
     "distinct by (tree, subset)."
     " Editions part (round 5): generated programs (vlib/progs.py) with explicitly versioned functions are run on a persistent store, edited beneath those functions (their results survive, by definition) and run again, each edition in a new process; afterwards every memento in the store is read back through new backend objects and its dependency set must equal itself plus the union of the dependency sets stored for the calls it recorded - in particular when two versions of one function meet in one set. Directed enumerated family (pinned caller / edited leaf / root reaching the leaf directly, through a helper, or not at all) plus generated programs and edits."
+    " Round 6: a file resource whose name contains a percent escape."
 )
 ASSUMPTIONS = [
     "functions carry explicit versions, so dynamic dispatch through a table is allowed by the library (no dependency validation)",
